@@ -368,6 +368,9 @@ func (fc *FnCtx) specialHigher(ins ssa.Instruction, callee *ssa.Function, cc *ss
 	if strings.HasPrefix(callee.String(), "github.com/samber/lo.Map[") && fc.loMap(ins, cc, args, setResult) {
 		return true
 	}
+	if strings.HasPrefix(callee.String(), "github.com/samber/lo.ContainsBy[") && fc.loContainsBy(ins, cc, args, setResult) {
+		return true
+	}
 	if fc.atomicModel(ins, callee, args, setResult) {
 		return true
 	}
@@ -604,5 +607,91 @@ func (fc *FnCtx) sortStrings(ins ssa.Instruction, cc *ssa.CallCommon, setResult 
 	g.set(fc.cur, k, fmt.Sprintf("(store %s (sarr %s) %s)", h, sl, na))
 	g.trusted["built-in model: sort.Strings permutes the slice's elements in place into non-decreasing lexicographic order and changes nothing else"] = true
 	setResult(nil)
+	return true
+}
+
+// loContainsBy models lo.ContainsBy(xs, pred) as the loop it is: for i := range xs { if pred(xs[i]) { return true } };
+// return false - with the predicate closure inlined as the loop body and the invariant taken from the enclosing
+// function's contract (`rangeloop N invariant ...`, N counting Range / ContainsBy loops; `rangeindex` is the index of
+// the last element already tested).
+func (fc *FnCtx) loContainsBy(ins ssa.Instruction, cc *ssa.CallCommon, args []Val, setResult func([]Val)) bool {
+	g := fc.g
+	if len(cc.Args) != 2 {
+		return false
+	}
+	ci := fc.closureOf(cc.Args[1])
+	if ci == nil || ci.fn.Blocks == nil || ci.fn.Signature.Params().Len() != 1 {
+		return false
+	}
+	st, ok := cc.Args[0].Type().Underlying().(*types.Slice)
+	if !ok {
+		return false
+	}
+	fc.rangeN++
+	n := fc.rangeN
+	root := fc
+	for root.parent != nil {
+		root = root.parent
+	}
+	var ls *LoopSpec
+	if fc.c != nil {
+		ls = fc.c.RangeLoops[n]
+	}
+	xs := args[0].t
+	ln := fmt.Sprintf("(slen %s)", xs)
+	id := fc.syntheticID("containsBy", ins)
+	mkEnv := func(idx string) *Env {
+		env := fc.envAt(fc.cur, fc.debugNames)
+		env.vars["rangeindex"] = Val{t: idx, ty: tInt}
+		return env
+	}
+	if ls != nil {
+		env := mkEnv("(- 1)")
+		for i, inv := range ls.Invariants {
+			fc.oblige("inv-entry", fmt.Sprintf("R%d.%d", n, i+1), posOf(ins), env.boolExpr(inv.Expr), inv.Src, inv.Name)
+		}
+	}
+	saved := g.curLoops
+	g.curLoops = append(append([]string{}, saved...), id)
+	fc.havocSynthetic(id)
+	idx := g.fresh(fc.prefix+"containsBy.idx", "Int")
+	fc.assume(fmt.Sprintf("(and (<= (- 1) %s) (< %s %s))", idx, idx, ln), "ContainsBy: index of the last tested element")
+	if ls != nil {
+		env := mkEnv(idx)
+		for _, inv := range ls.Invariants {
+			fc.assume(env.boolExpr(inv.Expr), "range invariant "+inv.Src)
+		}
+	}
+	headState := fc.cur.clone()
+	headReach := fc.curReach
+	more := fmt.Sprintf("(< (+ %s 1) %s)", idx, ln)
+	exitA := g.def(fc.prefix+"containsBy.none", "Bool", fmt.Sprintf("(and %s (not %s))", headReach, more))
+	fc.curReach = g.def(fc.prefix+"containsBy.body", "Bool", fmt.Sprintf("(and %s %s)", headReach, more))
+	cur := g.def(fc.prefix+"containsBy.i", "Int", fmt.Sprintf("(+ %s 1)", idx))
+	k := g.arrKey(st.Elem())
+	el := g.def(fc.prefix+"containsBy.elem", g.sortOf(st.Elem()), fmt.Sprintf("(select (select %s (sarr %s)) (|ix| (soff %s) %s))", g.get(fc.cur, k), xs, xs, cur))
+	if rc := g.sorts.rangeConstraint(st.Elem(), el); rc != "" {
+		fc.assume(rc, "range")
+	}
+	rs := fc.inline(ins, ci.fn, g.findContract(ci.fn), ci, []Val{{t: el, ty: st.Elem()}})
+	bodyReach := fc.curReach
+	hit := rs[0].t
+	fc.curReach = g.def(fc.prefix+"containsBy.back", "Bool", fmt.Sprintf("(and %s (not %s))", bodyReach, hit))
+	if ls != nil {
+		env := mkEnv(cur)
+		for i, inv := range ls.Invariants {
+			fc.oblige("inv-step", fmt.Sprintf("R%d.%d", n, i+1), posOf(ins), env.boolExpr(inv.Expr), inv.Src, inv.Name)
+		}
+	}
+	exitB := g.def(fc.prefix+"containsBy.found", "Bool", fmt.Sprintf("(and %s %s)", bodyReach, hit))
+	bodyState := fc.cur
+	g.curLoops = saved
+	fc.cur = g.mergeStates([]string{exitA, exitB}, []*State{headState, bodyState})
+	fc.curReach = g.def(fc.prefix+"containsBy.after", "Bool", fmt.Sprintf("(or %s %s)", exitA, exitB))
+	res := g.def(fc.prefix+"containsBy.res", "Bool", exitB)
+	// what is known after the loop: found => the element at index idx+1 made the predicate true (facts assumed while
+	// inlining the body); none => every element was tested (idx == len-1) under the invariant
+	g.trusted["built-in model: lo.ContainsBy(xs, pred) is the loop `for i := range xs { if pred(xs[i]) { return true } }; return false`"] = true
+	setResult([]Val{{t: res, ty: tBool}})
 	return true
 }
